@@ -628,9 +628,14 @@ theorem processTimeout_chain (env : Env) (m : Machine) (s : Step) (h : Height) (
   generalize m.onTimeout env s h r = res at h1
   obtain ⟨m', acts⟩ := res
   simp only at h1 ⊢
-  obtain ⟨out, e, h2, h3⟩ := processLoop_chain (A := A) env m' acts none h1.2.2 h1.2.1
-  rw [e]
-  exact ⟨XChain.append h1.1 h2, h3⟩
+  split
+  · rename_i he
+    have : acts = [] := by simpa using he
+    subst this
+    exact ⟨h1.1, h1.2.1⟩
+  · obtain ⟨out, e, h2, h3⟩ := processLoop_chain (A := A) env m' acts none h1.2.2 h1.2.1
+    rw [e]
+    exact ⟨XChain.append h1.1 h2, h3⟩
 
 /-- The driver's discipline for one input: timeouts are only delivered to a started height and a
 height is started in a round `≥ 0` (`driver.listen` calls `ProcessStart(0)` right after construction
